@@ -1237,6 +1237,12 @@ func (m *Manager) Unlock(ns walletdb.ReadBucket, passphrase []byte) error {
 	// extended keys.
 	for _, manager := range m.scopedManagers {
 		for account, acctInfo := range manager.acctInfo {
+			// Accounts without a private key (imported extended
+			// public keys) have nothing to decrypt.
+			if len(acctInfo.acctKeyEncrypted) == 0 {
+				continue
+			}
+
 			decrypted, err := m.cryptoKeyPriv.Decrypt(acctInfo.acctKeyEncrypted)
 			if err != nil {
 				m.lock()
@@ -1266,6 +1272,14 @@ func (m *Manager) Unlock(ns walletdb.ReadBucket, passphrase []byte) error {
 			if err != nil {
 				m.lock()
 				return err
+			}
+
+			// Addresses of accounts without a private key have no
+			// private key to derive, drop them from the list.
+			if !addressKey.IsPrivate() {
+				manager.deriveOnUnlock[0] = nil
+				manager.deriveOnUnlock = manager.deriveOnUnlock[1:]
+				continue
 			}
 
 			// It's ok to ignore the error here since it can only
